@@ -14,7 +14,7 @@ import (
 func init() {
 	register(&Property{
 		ID:          "C03",
-		Explanation: "Structural necessary conditions of the rate bound. R1: in the limiter's consume routine every path from entry to the bucket set's Consume passes a TTLMap.Set of the very bucket set being consumed under the very key that was looked up, so the entry lifetime is re-armed on every access (otherwise a busy source's entry expires mid-traffic and it gets a fresh full burst). R2: a fresh bucket set is constructed only on the lookup-miss edge. R3: in the bucket's consume the store that debits availableTokens executes only on an edge implying availableTokens - tokens >= 0 (normal form; a stricter guard is accepted). R4: in the refill routine the credited amount is elapsed/timePerToken with elapsed = now - lastRefresh (dimension tokens = ns/ns), the checkpoint lastRefresh := now (the same now) is stored exactly under the guard credit != 0 computed on the UNCLAMPED sum, together with the credited store, and the cap availableTokens <= burst is applied afterwards on every path; timePerToken is period/average (ns per token). R5: TokenBucketSet.Consume consults every bucket: the consume loop ranges over the bucket map and has no exit other than exhaustion of the range. R7 (fails closed): in ServeHTTP the wrapped handler is reachable only on the nil edge of the error results of the source extractor and of the consume routine, whatever the kind of error. R8: the capacity field is read for NewTTLMap after every option call (no option, also through helpers, is reachable after the read). R9 (= C13.R4): the delay returned for missing tokens is exactly (tokens - available) x timePerToken (rejection is signalled by delay > 0 only). R10: the lifetime handed to TTLMap.Set has a proven lower bound >= 1 (interval arithmetic over its SSA definition; maxPeriod >= 0 is proved as an inductive invariant of all its stores); R4 additionally requires that lastRefresh is stored only by the refill routine and when a bucket is allocated; R6 includes every TTL-map call (get-or-create is one critical section).",
+		Explanation: "Structural necessary conditions of the rate bound. R1: in the limiter's consume routine every path from entry to the bucket set's Consume passes a TTLMap.Set of the very bucket set being consumed under the very key that was looked up, so the entry lifetime is re-armed on every access (otherwise a busy source's entry expires mid-traffic and it gets a fresh full burst). R2: a fresh bucket set is constructed only on the lookup-miss edge. R3: in the bucket's consume the store that debits availableTokens executes only on an edge implying availableTokens - tokens >= 0 (normal form; a stricter guard is accepted). R4: in the refill routine the credited amount is elapsed/timePerToken with elapsed = now - lastRefresh (dimension tokens = ns/ns), the checkpoint lastRefresh := now (the same now) is stored exactly under the guard credit != 0 computed on the UNCLAMPED sum, together with the credited store, and the cap availableTokens <= burst is applied afterwards on every path; timePerToken is period/average (ns per token). R5: TokenBucketSet.Consume consults every bucket: the consume loop ranges over the bucket map and has no exit other than exhaustion of the range. R7 (fails closed): in ServeHTTP the wrapped handler is reachable only on the nil edge of the error results of the source extractor and of the consume routine, whatever the kind of error. R8: the capacity field is read for NewTTLMap after every option call (no option, also through helpers, is reachable after the read). R9 (= C13.R4): the delay returned for missing tokens is exactly (tokens - available) x timePerToken (rejection is signalled by delay > 0 only). R10: the lifetime handed to TTLMap.Set has a proven lower bound >= 1 (interval arithmetic over its SSA definition; maxPeriod >= 0 is proved as an inductive invariant of all its stores); R4 additionally requires that lastRefresh is stored only by the refill routine and when a bucket is allocated; R6 includes every TTL-map call (get-or-create is one critical section). R11 (= C14.R3): the TTL map frees space only when a new key arrives at capacity, so no live source within the capacity is forgotten.",
 		NotDecided: []string{
 			"the bound burst + T/(period/average) + 1 itself over every interval of every history: a numerical safety property over unbounded histories",
 			"serialisation of the whole consume under the limiter mutex is C09 (and checked there)",
